@@ -45,4 +45,23 @@ destination modulo `2^bits` (`"-1"` read into `unsigned short` is 65535) -/
 def numeralValue (signed : Bool) (bits : Nat) (neg : Bool) (mag : Nat) : Int :=
   if neg then (if signed then -(mag : Int) else ((2 ^ bits - mag) % 2 ^ bits : Nat)) else mag
 
+/-! ## UTF-8 -/
+
+/-- a Unicode scalar value: a code point that is not a surrogate -/
+def IsScalar (c : Nat) : Prop := c ≤ 0x10FFFF ∧ ¬ (0xD800 ≤ c ∧ c ≤ 0xDFFF)
+
+/-- number of bytes of the UTF-8 form of `c` (the original 31-bit scheme; scalar values need at most 4):
+one byte carries 7 bits, an `n`-byte form carries `5n + 1` bits -/
+def utf8Len (c : Nat) : Nat :=
+  if c < 2 ^ 7 then 1 else if c < 2 ^ 11 then 2 else if c < 2 ^ 16 then 3 else if c < 2 ^ 21 then 4 else if c < 2 ^ 26 then 5 else 6
+
+/-- UTF-8 by its bit layout: a single byte `0xxxxxxx`, otherwise a lead byte with `n` one bits, a zero bit and the top
+bits of `c`, followed by `n - 1` continuation bytes `10xxxxxx` carrying six bits each, most significant first -/
+def utf8Encode (c : Nat) : List Nat :=
+  let n := utf8Len c
+  if n = 1 then [c]
+  else (256 - 2 ^ (8 - n) + c / 64 ^ (n - 1)) :: ((List.range (n - 1)).reverse.map fun i => 128 + c / 64 ^ i % 64)
+
+def utf8EncodeAll (cs : List Nat) : List Nat := cs.flatMap utf8Encode
+
 end Fcppt.C15.Spec
